@@ -821,6 +821,11 @@ type EvaluateHandler struct {
 }
 
 func (e *EvaluateHandler) ServeHTTP(w http.ResponseWriter, r *http.Request) {
+	// The evaluator expects its caller to hold the read lock, which it swaps
+	// for the write lock while it applies a change.
+	e.Evaluator.Lock.RLock()
+	defer e.Evaluator.Lock.RUnlock()
+
 	var err error
 	var result interface{}
 	if r.Method == "GET" {
